@@ -203,6 +203,44 @@ type FnResult struct {
 }
 
 // VerifyFunction generates the obligations of one function under contract (one per instantiation).
+// instType resolves a type named in an `instantiate` clause: basic types, types of the function's package,
+// pkg.Type, [N]T and []T.
+func (e *Engine) instType(tn string, pkg *types.Package) types.Type {
+	tn = strings.TrimSpace(tn)
+	if T := basicTypes[tn]; T != nil {
+		return T
+	}
+	if strings.HasPrefix(tn, "[]") {
+		if el := e.instType(tn[2:], pkg); el != nil {
+			return types.NewSlice(el)
+		}
+		return nil
+	}
+	if strings.HasPrefix(tn, "[") {
+		if k := strings.Index(tn, "]"); k > 0 {
+			var n int64
+			if _, err := fmt.Sscanf(tn[1:k], "%d", &n); err == nil {
+				if el := e.instType(tn[k+1:], pkg); el != nil {
+					return types.NewArray(el, n)
+				}
+			}
+		}
+		return nil
+	}
+	if i := strings.Index(tn, "."); i > 0 {
+		if p := e.findPkg(tn[:i], pkg); p != nil {
+			if o := p.Scope().Lookup(tn[i+1:]); o != nil {
+				return o.Type()
+			}
+		}
+		return nil
+	}
+	if o := pkg.Scope().Lookup(tn); o != nil {
+		return o.Type()
+	}
+	return nil
+}
+
 func (e *Engine) Translate(key string, ct *Contract) []*FnResult {
 	base := key
 	if i := strings.Index(base, "#"); i >= 0 {
@@ -215,6 +253,7 @@ func (e *Engine) Translate(key string, ct *Contract) []*FnResult {
 	// instantiations
 	var insts []map[string]types.Type
 	var names []string
+	badInst := ""
 	if len(ct.Inst) > 0 {
 		var tps []string
 		for tp := range ct.Inst {
@@ -233,13 +272,9 @@ func (e *Engine) Translate(key string, ct *Contract) []*FnResult {
 				return
 			}
 			for _, tn := range ct.Inst[tps[i]] {
-				T := basicTypes[tn]
+				T := e.instType(tn, fn.Pkg.Pkg)
 				if T == nil {
-					if o := fn.Pkg.Pkg.Scope().Lookup(tn); o != nil {
-						T = o.Type()
-					}
-				}
-				if T == nil {
+					badInst = tn
 					insts = nil
 					return
 				}
@@ -251,6 +286,9 @@ func (e *Engine) Translate(key string, ct *Contract) []*FnResult {
 	} else {
 		insts = []map[string]types.Type{{}}
 		names = []string{""}
+	}
+	if badInst != "" {
+		return []*FnResult{{Key: key, Err: fmt.Errorf("instantiate: unknown type %q (%s:%d)", badInst, ct.File, ct.Line)}}
 	}
 	var out []*FnResult
 	for i, s := range insts {
